@@ -179,7 +179,17 @@ func (t *RTPTransceiver) setCodecPreferencesFromRemoteDescription(media *sdp.Med
 			}
 		}
 	}
-	_ = t.SetCodecPreferences(filteredCodecs)
+
+	// Remote codecs that are compatible with each other resolve to the same
+	// media engine codec and thereby to the same payload type: keep the first
+	// one (remote order), a payload type must not be listed twice.
+	uniqueCodecs := make([]RTPCodecParameters, 0, len(filteredCodecs))
+	for _, codec := range filteredCodecs {
+		if findCodecByPayload(uniqueCodecs, codec.PayloadType) == nil {
+			uniqueCodecs = append(uniqueCodecs, codec)
+		}
+	}
+	_ = t.SetCodecPreferences(uniqueCodecs)
 }
 
 // Sender returns the RTPTransceiver's RTPSender if it has one.
